@@ -19,7 +19,7 @@ Points == << Q(<<0>>, 1), Q(<<1>>, 2), Q(<<-1>>, 1), Q(<<2>>, 1), Q(<<5>>, 1), Q
 Next ==
     \/ n = 0 /\ \E kind \in {"Measure", "PDF"}, R \in Rs, s \in Offs : ANewMeasure1D(kind, R, s)
     \/ n = 1 /\ \E cls \in {"Trunc", "TruncPDF"}, li \in LimIdx, lm \in {"scalar", "array"} :
-                   ANewTrunc(cls, 1, LIMITS[li], lm)
+                   ANewTrunc(cls, 1, li, lm)
     \/ n = 2 /\ (\/ \E k \in Ks : ATruncIntegrate(2, IF k = 0 THEN "1" ELSE IF k = 1 THEN "x" ELSE IF k = 2 THEN "x**2" ELSE "x**k", k)
                  \/ \E k \in {0, 1, 2} : ATruncIntegrate(2, "x**k", k)
                  \/ ATruncCall(2, Points, FALSE)
